@@ -18,6 +18,6 @@ hprop.install(globals(), hprop.HistoryProperty(
           "built-in pairing; distinct = sha1(world, op log)"),
     assumptions=hprop.COMMON_ASSUMPTIONS + ["requests carry a fleet id iff a fleets file exists (the loader drops the others)"],
     quick=(16, 60, 35), thorough=(16, 800, 60), probes=True,
-    instr_bias={"inject": True, "reoffer": True, "tclasses": [0, 4, 4, 4, 4, 5, 1, 2]},
+    instr_bias={"inject": True, "reoffer": True, "raw": True, "raw_tclasses": [4, 4, 4, 0, 1, 5], "tclasses": [0, 4, 4, 4, 4, 5, 1, 2]},
 ))
 FLOORS = {"quick": {"flag:cross_fleet_instruction_rejected": 50, "builtin_pairings": 500}, "thorough": {"builtin_pairings": 10000}}
